@@ -48,6 +48,23 @@ let fault_w8 (model_w8 : z) (impl_rec : string) : string =
     | None -> dflt)
   | _ -> dflt
 
+(* [guest_write] of the model, computed with native integers (same association-list result:
+   first matching page, cell replaced in place or appended; a byte of an unmapped page is dropped) *)
+let guest_write_fast (s : istate) (addr : ZA.t) (bs : n list) : istate =
+  let pages = ref s.o_mem.m_pages in
+  List.iteri (fun i b ->
+      let a = ZA.add addr (ZA.of_int i) in
+      let pgk = z_of_za (ZA.div a page_sz) and off = z_of_za (ZA.rem a page_sz) in
+      let v = z_of_za (za_of_n b) in
+      let rec set_cell = function
+        | [] -> [ (off, v) ]
+        | (o, x) :: t -> if o = off then (off, v) :: t else (o, x) :: set_cell t in
+      let rec set_page = function
+        | [] -> []
+        | (k, pg) :: t -> if k = pgk then (k, { pg with p_dat = set_cell pg.p_dat }) :: t else (k, pg) :: set_page t in
+      pages := set_page !pages) bs;
+  { s with o_mem = { s.o_mem with m_pages = !pages } }
+
 let replay (pages : string) (gas : string) (ops : string list) (impl : string) (trunc_pc : bool) : string =
   let s = ref { o_regs = init_regs; o_gas = z_of_string gas;
                 o_mem = { m_pages = parse_pages_raw pages; m_hp = Z0; m_hl = Z0 }; o_mach = [] } in
@@ -55,14 +72,23 @@ let replay (pages : string) (gas : string) (ops : string list) (impl : string) (
   let next_impl () = match !impl_recs with r :: t -> impl_recs := t; r | [] -> "" in
   let prev_o = ref (dump_mem !s.o_mem) and prev_m = ref "-" in
   let delta cur prev = if cur = !prev then "=" else begin prev := cur; cur end in
+  (* a call that returns the very same RAM / machine-map value changed nothing: no need to print it *)
+  let last_o = ref !s.o_mem and last_m = ref !s.o_mach in
+  let check_fast = (try Sys.getenv "C33_CHECK_FAST" = "1" with Not_found -> false) in
   let recs = ref [] in
   let stop = ref false in
   List.iter (fun op ->
       if not !stop then begin
         match split_on ',' op with
         | [ "w"; addr; hx ] ->
-          s := guest_write !s (z_of_string addr) (List.map (fun b -> z_of_za (za_of_n b)) (bytes_of_hex hx));
-          prev_o := dump_mem !s.o_mem
+          let bs = bytes_of_hex hx in
+          let s' = guest_write_fast !s (ZA.of_string addr) bs in
+          if check_fast then begin
+            let s'' = guest_write !s (z_of_string addr) (List.map (fun b -> z_of_za (za_of_n b)) bs) in
+            if s'' <> s' then failwith "guest_write_fast differs from the model"
+          end;
+          s := s';
+          prev_o := dump_mem !s.o_mem; last_o := !s.o_mem
         | name :: args ->
           let c = call_of name in
           let args = List.map z_of_string args in
@@ -76,14 +102,18 @@ let replay (pages : string) (gas : string) (ops : string list) (impl : string) (
            | None -> recs := "STUCK" :: !recs; stop := true
            | Some (e, s2) ->
              s := s2;
-             let o = delta (dump_mem s2.o_mem) prev_o in
-             let m = delta (dump_machines s2.o_mach) prev_m in
+             let o = if s2.o_mem == !last_o then "=" else delta (dump_mem s2.o_mem) prev_o in
+             let m = if s2.o_mach == !last_m then "=" else delta (dump_machines s2.o_mach) prev_m in
+             last_o := s2.o_mem; last_m := s2.o_mach;
              (match e with
               | XCont ->
                 let w7 = List.nth s2.o_regs 7 and w8 = List.nth s2.o_regs 8 in
                 let same = List.for_all (fun i -> i = 7 || i = 8 || List.nth s2.o_regs i = List.nth s1.o_regs i)
                     (List.init 13 (fun i -> i)) in
                 let w8s = if c = CInvoke && zs w7 = "2" then fault_w8 w8 irec else zs w8 in
+                (* an accepted fault address stays in omega_8 for the calls that follow *)
+                if w8s <> zs w8 then
+                  s := { s2 with o_regs = List.mapi (fun i v -> if i = 8 then z_of_string w8s else v) s2.o_regs };
                 recs := Printf.sprintf "c %s %s %s %s %s %s" (zs w7) w8s (zs s2.o_gas)
                     (if same then "=" else fmt_regs s2.o_regs) o m :: !recs
               | XPanic -> recs := Printf.sprintf "panic %s %s %s" (zs s2.o_gas) o m :: !recs; stop := true
